@@ -513,7 +513,9 @@ class SymFloat:
     def __round__(self, n=None):
         if n is None:
             return self._to_int(RNE)      # Python round(): half to even
-        raise Unsupported("round(x, n) on exact float")
+        # decimal rounding: modelled as an unconstrained binary64 result (over-approximation; nothing is asserted about it here)
+        SymFloat._rnd = getattr(SymFloat, "_rnd", 0) + 1
+        return SymFloat(z3.FP("round_%d_%d" % (n, SymFloat._rnd), F64))
 
     def __trunc__(self):
         return self._to_int(RTZ)
